@@ -47,9 +47,24 @@ class _Done:
         return self.values
 
 
+_POOLS = []
+
+
+def shutdown():
+    """Terminate worker pools that are still pending (a check that gives up early must not leave workers behind)."""
+    while _POOLS:
+        pool = _POOLS.pop()
+        try:
+            pool.terminate()
+            pool.join()
+        except Exception:  # noqa: BLE001
+            pass
+
+
 class _Pending:
     def __init__(self, pool, handle):
         self.pool, self.handle = pool, handle
+        _POOLS.append(pool)
 
     def get(self):
         try:
@@ -57,6 +72,8 @@ class _Pending:
         finally:
             self.pool.terminate()
             self.pool.join()
+            if self.pool in _POOLS:
+                _POOLS.remove(self.pool)
         return _collect(res)
 
 
